@@ -93,6 +93,28 @@ type nOut struct {
 	Gen          []genInfo        `json:"gen,omitempty"`
 }
 
+// nHangBound is the simulated time after which a run without verdict counts as hung.
+const nHangBound = 6 * time.Hour
+
+// nHangDigest keeps what explains a hang: goroutines that are inside a panic or
+// inside the runner's own packages (first frames only).
+func nHangDigest(dump string) string {
+	var keep []string
+	for _, g := range strings.Split(dump, "\n\n") {
+		if strings.Contains(g, "panic(") || strings.Contains(g, "internal/app/connectconformance.") {
+			lines := strings.Split(g, "\n")
+			if len(lines) > 24 {
+				lines = lines[:24]
+			}
+			keep = append(keep, strings.Join(lines, "\n"))
+		}
+		if len(keep) >= 12 {
+			break
+		}
+	}
+	return strings.Join(keep, "\n\n")
+}
+
 type linePrinter struct {
 	mu    sync.Mutex
 	lines []string
@@ -187,6 +209,25 @@ func TestVerifN(t *testing.T) {
 			for {
 				time.Sleep(50 * time.Millisecond)
 				tick.Add(1)
+				// simulated-time bound: a run whose simulated clock keeps advancing
+				// but which never reaches its verdict (a crashed result goroutine
+				// stuck in its deferred cleanup, a lost wake-up) is a hang of the
+				// runner, not trouble of the machinery. No legal run of the
+				// embedded or generated suites needs more than minutes.
+				if time.Since(simStart) > nHangBound {
+					buf := make([]byte, 1<<20)
+					n := runtime.Stack(buf, true)
+					out.Panic = fmt.Sprintf("HANG: the runner did not reach a verdict within %s of simulated time\n%s", nHangBound, nHangDigest(string(buf[:n])))
+					out.SimSeconds = time.Since(simStart).Seconds()
+					out.WallSeconds = time.Since(wallStart).Seconds()
+					out.Net = map[string]int64{}
+					data, _ := json.Marshal(out)
+					if err := os.WriteFile(job.Out, data, 0o644); err != nil {
+						fmt.Fprintf(os.Stderr, "write out: %v\n", err)
+						os.Exit(2)
+					}
+					os.Exit(0)
+				}
 			}
 		}()
 		verifStarterHook = func(kind string, args []string) verifImpl {
